@@ -112,7 +112,10 @@ def history_shard(shard, tier, seed, res, tag="c13.history", with_dim=True):
         return sorted(out)
 
     def fresh(at):
-        return summary(SBC().get_clusters(at.copy()))
+        try:
+            return summary(SBC().get_clusters(at.copy()))
+        except Exception as e:  # an exception of a fresh call is the end-to-end part's business; here only the difference counts
+            return [("EXC", repr(e)[:80])]
 
     seqs = []
     if name == "mutate:fcc-stretch":
